@@ -146,6 +146,48 @@ type filler struct {
 	urls     []string
 	sane     bool // bias towards values that pass signer resolution
 	maxDepth int
+	// valid mode: every leaf gets a plausible value, except leaf number hostileAt (-1: none), which
+	// gets a hostile one. The wire-level mutants then omit / duplicate / corrupt one field at a time
+	// of an otherwise acceptable message.
+	valid     bool
+	hostileAt int
+	leaf      int
+}
+
+// plain reports whether the next leaf takes a plausible value (valid mode, not the hostile leaf).
+func (f *filler) plain() bool {
+	f.leaf++
+	return f.valid && f.hostileAt != f.leaf-1
+}
+
+func (f *filler) plainStr(name string) string {
+	n := strings.ToLower(name)
+	k := f.c.Users[f.rng.IntN(len(f.c.Users))]
+	switch {
+	case strings.Contains(n, "chain"):
+		return f.pick("eth", "bsc", "tron")
+	case strings.Contains(n, "denom"):
+		return f.pick(fxtypes.DefaultDenom, "usdt")
+	case strings.Contains(n, "sender") || strings.Contains(n, "author") || strings.Contains(n, "bridger") || strings.Contains(n, "oracleaddr") || n == "oracle" || strings.Contains(n, "from") ||
+		strings.Contains(n, "signer") || strings.Contains(n, "depositor") || strings.Contains(n, "voter") || strings.Contains(n, "proposer") || strings.Contains(n, "delegator") || strings.Contains(n, "granter") || strings.Contains(n, "grantee") || strings.Contains(n, "admin"):
+		return k.Bech32()
+	case strings.Contains(n, "validator"):
+		return f.pick(sdk.ValAddress(k.Acc()).String(), k.Bech32())
+	case strings.Contains(n, "addr") || strings.Contains(n, "receiver") || n == "to" || strings.Contains(n, "dest") || strings.Contains(n, "refund") || strings.Contains(n, "contract") ||
+		strings.Contains(n, "origin") || strings.Contains(n, "token") || strings.Contains(n, "oracle"):
+		return f.pick(k.Bech32(), k.Hex().Hex(), k.Hex().Hex(), crosschaintypes.ExternalAddrToStr("tron", k.Hex().Bytes()))
+	case strings.Contains(n, "signature"):
+		return hex.EncodeToString(make([]byte, 65))
+	case strings.Contains(n, "data") || strings.Contains(n, "memo") || strings.Contains(n, "hash") || strings.Contains(n, "checkpoint"):
+		return f.pick("", "00", "abcd")
+	case strings.Contains(n, "amount") || strings.Contains(n, "value") || strings.Contains(n, "fee"):
+		return f.pick("0", "1", "1000")
+	case strings.Contains(n, "target"):
+		return f.pick("", "erc20", "eth")
+	case strings.Contains(n, "url"):
+		return "/cosmos.bank.v1beta1.MsgSend"
+	}
+	return f.pick("a", "title", "1")
 }
 
 func (f *filler) pick(xs ...string) string { return xs[f.rng.IntN(len(xs))] }
@@ -289,9 +331,17 @@ func (f *filler) fill(v reflect.Value, name string, depth int) {
 	}
 	switch v.Type() {
 	case tInt:
+		if f.plain() {
+			v.Set(reflect.ValueOf([]sdkmath.Int{sdkmath.ZeroInt(), sdkmath.ZeroInt(), sdkmath.OneInt(), sdkmath.NewInt(int64(1 + f.rng.IntN(1_000_000)))}[f.rng.IntN(4)]))
+			return
+		}
 		v.Set(reflect.ValueOf(f.int()))
 		return
 	case tDec:
+		if f.plain() {
+			v.Set(reflect.ValueOf([]sdkmath.LegacyDec{sdkmath.LegacyZeroDec(), sdkmath.LegacyNewDecWithPrec(5, 1), sdkmath.LegacyOneDec(), sdkmath.LegacyNewDecWithPrec(1, 2)}[f.rng.IntN(4)]))
+			return
+		}
 		v.Set(reflect.ValueOf(f.dec()))
 		return
 	case tAny:
@@ -311,12 +361,24 @@ func (f *filler) fill(v reflect.Value, name string, depth int) {
 	}
 	switch v.Kind() {
 	case reflect.String:
-		v.SetString(f.str(name))
+		if f.plain() {
+			v.SetString(f.plainStr(name))
+		} else {
+			v.SetString(f.str(name))
+		}
 	case reflect.Bool:
 		v.SetBool(f.rng.IntN(2) == 0)
 	case reflect.Int, reflect.Int32, reflect.Int64:
+		if f.plain() {
+			v.SetInt(int64(f.rng.IntN(3)))
+			return
+		}
 		v.SetInt([]int64{0, 1, -1, int64(f.rng.IntN(1000)), math.MaxInt32, math.MinInt32}[f.rng.IntN(6)])
 	case reflect.Uint, reflect.Uint32, reflect.Uint64, reflect.Uint8:
+		if f.plain() {
+			v.SetUint(uint64(1 + f.rng.IntN(100)))
+			return
+		}
 		x := []uint64{0, 1, uint64(f.rng.IntN(1000)), math.MaxUint32, math.MaxInt64, math.MaxUint64}[f.rng.IntN(6)]
 		if v.OverflowUint(x) {
 			x = 255
@@ -326,6 +388,9 @@ func (f *filler) fill(v reflect.Value, name string, depth int) {
 		v.SetFloat(float64(f.rng.IntN(100)))
 	case reflect.Slice:
 		n := []int{0, 0, 1, 2, 3}[f.rng.IntN(5)]
+		if f.valid {
+			n = 1 + f.rng.IntN(2)
+		}
 		if depth >= f.maxDepth {
 			n = 0
 		}
@@ -335,7 +400,7 @@ func (f *filler) fill(v reflect.Value, name string, depth int) {
 		}
 		v.Set(s)
 	case reflect.Ptr:
-		if v.Type().Elem().Kind() != reflect.Struct || depth >= f.maxDepth || f.rng.IntN(5) == 0 {
+		if v.Type().Elem().Kind() != reflect.Struct || depth >= f.maxDepth || (!f.valid && f.rng.IntN(5) == 0) {
 			return
 		}
 		p := reflect.New(v.Type().Elem())
@@ -481,7 +546,13 @@ func c20Msgs(spec c20Spec, res *core.CaseResult, verbose bool) {
 			n = spec.N / 4 // dependency types are exercised too, with a smaller budget
 		}
 		for k := 0; k < n; k++ {
-			f := &filler{rng: rng, c: c, urls: urls, sane: k%3 != 2, maxDepth: 3}
+			f := &filler{rng: rng, c: c, urls: urls, sane: k%3 != 2, maxDepth: 3, hostileAt: -1}
+			switch k % 4 {
+			case 0: // a plausible message; the wire mutants break it one field at a time
+				f.valid = true
+			case 1: // plausible except one leaf
+				f.valid, f.hostileAt = true, rng.IntN(24)
+			}
 			var m gogoproto.Message
 			if p, _ := guard(func() { m = f.msg(url, 0) }); p || m == nil {
 				continue
@@ -826,7 +897,7 @@ func c20Fee(spec c20Spec, res *core.CaseResult, verbose bool) {
 	confirmURL := sdk.MsgTypeURL(&crosschaintypes.MsgConfirm{})
 	exemptSets := [][]string{{}, {sendURL}, {voteURL, wdrURL}, {sendURL, voteURL, wdrURL}, {confirmURL}, {"/no.such.Msg"}}
 	exempt := exemptSets[spec.Shard%len(exemptSets)]
-	allowance := []uint64{0, 50_000, 200_000, 1_000_000}[rng.IntN(4)]
+	allowance := []uint64{200_000, 50_000, 1_000_000, 0}[spec.Shard%4]
 	prices := []string{"", "4000000000000" + fxtypes.DefaultDenom, "0.000000001" + fxtypes.DefaultDenom, "4000000000000" + fxtypes.DefaultDenom + ",0.5usdt"}
 	price := prices[(spec.Shard/len(exemptSets)+rng.IntN(len(prices)))%len(prices)]
 	if spec.Shard < 3 {
@@ -864,8 +935,40 @@ func c20Fee(spec c20Spec, res *core.CaseResult, verbose bool) {
 		n := 1 + rng.IntN(3)
 		var msgs []sdk.Msg
 		allEx := true
+		// the first iterations are fixed scenarios so that every run sees an accepted bypass and the
+		// refusals next to it; the rest is random
+		var exKinds, nonKinds []int
+		for kd := 0; kd < 4; kd++ {
+			if isExempt[sdk.MsgTypeURL(mk(kd))] {
+				exKinds = append(exKinds, kd)
+			} else {
+				nonKinds = append(nonKinds, kd)
+			}
+		}
+		scenario := -1
+		if i < 6 && len(exKinds) > 0 && allowance > 0 {
+			scenario = i
+			n = 3
+		}
 		for j := 0; j < n; j++ {
-			m := mk(rng.IntN(4))
+			kd := rng.IntN(4)
+			switch scenario {
+			case 0, 1:
+				kd = exKinds[j%len(exKinds)]
+			case 2: // one non-exempt message in the middle
+				kd = exKinds[j%len(exKinds)]
+				if j == 1 {
+					kd = nonKinds[0]
+				}
+			case 3: // only the last one is exempt
+				kd = nonKinds[j%len(nonKinds)]
+				if j == n-1 {
+					kd = exKinds[0]
+				}
+			case 4, 5:
+				kd = nonKinds[j%len(nonKinds)]
+			}
+			m := mk(kd)
 			msgs = append(msgs, m)
 			if !isExempt[sdk.MsgTypeURL(m)] {
 				allEx = false
@@ -887,6 +990,12 @@ func c20Fee(spec c20Spec, res *core.CaseResult, verbose bool) {
 		default:
 			gas = uint64(150_000 + rng.IntN(1_000_000))
 		}
+		switch scenario {
+		case 0, 2, 3:
+			gas = uint64(n) * allowance
+		case 1:
+			gas = uint64(n)*allowance + 1
+		}
 		if gas < 120_000 {
 			gas = 120_000 + uint64(rng.IntN(3)) // enough for the ante handler itself; still compared with n*allowance
 		}
@@ -899,6 +1008,14 @@ func c20Fee(spec c20Spec, res *core.CaseResult, verbose bool) {
 		// fee: none, just below, exactly, in the second denom only, both below
 		var fee sdk.Coins
 		feeKind := rng.IntN(6)
+		switch scenario {
+		case 0, 1, 2, 3:
+			feeKind = 0
+		case 4:
+			feeKind = 2
+		case 5:
+			feeKind = 1
+		}
 		switch {
 		case len(required) == 0 || feeKind == 0:
 			fee = nil
